@@ -36,6 +36,7 @@ MODULES = [
     ("src/entities/mod.rs", "batch.rs", "verif_kani"),
     ("src/resource/contains/mod.rs", "res.rs", "verif_kani"),
     ("src/system/schedule/mod.rs", "stages.rs", "verif_kani"),
+    ("src/resource/mod.rs", "res_serde.rs", "verif_kani_serde"),
 ]
 
 # (file, regex matching the line of the `fn`, attribute lines to insert directly above it)
